@@ -127,7 +127,10 @@ Proof.
   (* a rune below 128 is encoded in one byte below 128, but the first byte is >= 128 *)
   destruct (Z_lt_ge_dec r 128) as [L|G]; [|lia]. exfalso.
   pose proof (valid_rune_range r V) as R.
-  rewrite encode_rune_ascii in E by lia. destruct w as [|[|w']]; cbn [firstn] in E; try discriminate.
+  rewrite encode_rune_ascii in E by lia.
+  pose proof (f_equal (@length byte) E) as EL. rewrite firstn_length in EL. cbn [length] in EL.
+  pose proof (decode_width _ _ _ D ltac:(discriminate)) as W. cbn [length] in W.
+  assert (W1 : w = 1%nat) by lia. subst w. cbn [firstn] in E.
   inversion E as [E']. pose proof (f_equal bz E') as E2. rewrite bz_zb in E2 by lia. lia.
 Qed.
 
